@@ -98,7 +98,7 @@ Section Term.
   Proof.
     intros Hi. unfold dlist, diag_entries.
     replace r with (i + (2 + (r - S (S i))))%nat at 1 by lia.
-    rewrite seq_app, map_app. f_equal. cbn [Nat.add seq map]. reflexivity.
+    rewrite seq_app, map_app. reflexivity.
   Qed.
 
   (* one failed step of the pass decreases the measure *)
@@ -137,7 +137,7 @@ Section Term.
     intros Hx. unfold snf_gcdx. destruct (GT x y) as [[[d s] t] G]. rewrite G. cbn [sbind].
     destruct (sl_gcdx D SL _ _ _ _ _ G) as (_ & [a Ha] & _). fold o in Ha.
     assert (Hd : d <> 0). { intros E. apply Hx. rewrite Ha, E. ring. }
-    apply (is_zero_false D SL) in Hd. fold o. rewrite Hd.
+    apply (is_zero_false D SL) in Hd. rewrite Hd.
     destruct (rinv (ed_unit D) (rdiv (ed_euc D) x d)); do 3 eexists; reflexivity.
   Qed.
 
@@ -189,17 +189,18 @@ Section Term.
     destruct (snf_gcdx_spec D SL _ _ _ _ _ G) as (Hd & Hbez & Hxa & Hyb & Hone). fold o in Hbez, Hxa, Hyb, Hone.
     set (a := rdiv (ed_euc D) x d) in *. set (b := rdiv (ed_euc D) y d) in *.
     destruct (DiagR_gcd_step D SL m n i r (st_t s) a b d sx ty Hi HD Hd Hxa Hyb Hone) as (HD2 & Eii & Ess & Eoth).
-    fold o in Eii, Ess, Eoth.
+    fold o in Eii, Ess, Eoth. clearbody a b.
     split; [exact HD2|]. split; [discriminate|]. intros _.
     apply (mu_step r (st_t s) _ i a Hi HD).
     - exact Eoth.
     - rewrite Eii. exact Hd.
     - intros E. apply Hx. rewrite Hxa, E. ring.
     - intros ai Hai. (* a a unit: then x | y *)
-      assert (Ey : y = b * ai * x). { rewrite Hyb. rewrite Hxa at 2. transitivity (b * (a * ai) * d); [rewrite Hai|]; ring. }
+      assert (Ey : y = b * ai * x).
+      { rewrite Hyb, Hxa. transitivity (b * d * (a * ai)); [rewrite Hai|]; ring. }
       rewrite Ey, (divides_mul x (b * ai) Hx) in D1. discriminate.
     - rewrite Eii. exact Hxa.
-    - rewrite Eii, Ess. fold x. fold y. rewrite Hxa at 2. rewrite Hyb at 2. ring.
+    - rewrite Eii, Ess. fold x. fold y. rewrite Hxa, Hyb. ring.
   Qed.
 
   Lemma diag_pass_total r is s :
